@@ -172,6 +172,24 @@ CLAIMED = {
              "children is covered by the correspondence and by C02/C11's theorems, not re-proved here.",
         technique="Coq proof (loop = declarative gaps by induction; splice-site geometry) + exhaustive small-scope differential correspondence",
         design="4 (C15)"),
+    "C17": dict(
+        text="Coq theorems (Properties/C17.v, 11 statements, closed under the global context): Attributes stores a sequence "
+             "whatever is set (scalar -> one-item list; list/tuple kept; other keys untouched); always_return_list changes only "
+             "the view of one-item lists, never what is stored; attributes -> JSON text -> attributes is the identity incl. key "
+             "order for any content, relative to the json library's own round trip (oracle hypothesis); merge_attributes yields "
+             "per key exactly the union of both arguments' values (numeric_sort on or off), sorted and duplicate-free; Feature "
+             "equality holds iff the printed lines are equal and equal Features hash alike. Tied to attributes.py/helpers.py/"
+             "feature.py by 5k cases per quick run: assignment sequences through Feature[k] and .attributes[k] read under both "
+             "switch settings, _jsonify/_unjsonify on adversarial Unicode (controls, quotes, backslashes, astral characters), "
+             "merge_attributes pairs with numeric/non-numeric values (arguments deep-compared before/after), Feature pairs "
+             "compared by ==, str and hash against the printer model.",
+        note="Trusted: Coq kernel + vm_compute; Model/Container.v, Model/Attrs.v hand-written, tied by the correspondence. "
+             "simplejson is an oracle (its round trip on str->list-of-str dicts is assumed in C17_json_identity and observed "
+             "directly on the implementation). float() for numeric_sort is modelled on plain decimals <= 15 digits. That "
+             "merge_attributes does not modify its arguments is not expressible about immutable Gallina values: decided by the "
+             "correspondence only.",
+        technique="Coq proof (container laws, union theorem, equality via printed line) + differential correspondence; JSON relative to an oracle",
+        design="4 (C17)"),
 }
 
 PENDING_REASON = "machinery for this property is not built yet in this revision (planned, see DESIGN.md section 4/9); not claimed until its check exists"
